@@ -19,6 +19,7 @@ import tempfile
 from pathlib import Path
 
 VERIF = Path(__file__).resolve().parent.parent
+sys.path.insert(0, str(VERIF))
 PKG = Path("/repo/incomplete_cooperative")
 
 
@@ -108,6 +109,9 @@ def build(kind: str, dest: Path) -> None:
             rename_locals(tree)
         elif kind == "asserts":
             add_asserts(tree)
+        elif kind == "hoist":
+            from icgsa.mutate import hoist_call_arguments
+            hoist_call_arguments(tree)
         elif kind == "noannot":
             strip_annotations(tree)
         elif kind == "reorder":
@@ -118,7 +122,7 @@ def build(kind: str, dest: Path) -> None:
 def main() -> int:
     kinds = sys.argv[1:] or ["all"]
     if kinds == ["all"]:
-        kinds = ["reformat", "rename", "asserts", "reorder"]
+        kinds = ["reformat", "rename", "asserts", "reorder", "hoist"]
     props = [json.loads(l)["id"] for l in (VERIF / "properties.jsonl").read_text().splitlines() if l.strip()]
     bad = 0
     for kind in kinds:
